@@ -40,7 +40,8 @@ def required_buckets(tier):
                'Container.create_solution', 'Container.create_solution_from', 'PlateSlicer.remove',
                'PlateSlicer.fill_to', 'Recipe.bake'):
         req.append(f'C04/{op}/injected')
-    req += ['C04/recipe_handed/bake/returned', 'C04/recipe_handed/bake/raised', 'C04/natural/']
+    req += ['C04/recipe_handed/bake/returned', 'C04/recipe_handed/bake/raised', 'C04/natural/', 'C04/recipe/queried',
+            'C04/slice_queried_before_use']
     return req
 
 
@@ -436,8 +437,33 @@ def recipe(rng, case, idx):
                         r.remove(objs[n], R.ENZYME)
                     else:
                         r.remove(objs[n], R.ENZYME)
-            r.bake()
+            res = r.bake()
             M.bucket('C04/recipe/baked')
+            # ---- asking the baked recipe questions changes neither what bake returned nor what was handed in
+            after_bake = {n_: F.fingerprint(o_) for n_, o_ in res.items()}
+            for tf in list(r.stages.keys()):
+                for sub in rng.sample(w.subs, min(3, len(w.subs))):
+                    for dests in ('plates', [objs[n_] for n_ in objs], [res[n_] for n_ in res if n_ in pn][:1] or 'plates'):
+                        try:
+                            r.get_substance_used(sub, tf, 'U' if sub.is_enzyme() else 'umol', dests)
+                        except ValueError:
+                            pass
+                for n_ in objs:
+                    for u_ in ('uL', 'mg'):
+                        for q_ in (lambda: r.get_container_flows(objs[n_], tf, u_), lambda: r.get_amount_remaining(objs[n_], tf, u_, 'before'),
+                                   lambda: r.get_amount_remaining(objs[n_], tf, u_, 'after')):
+                            try:
+                                q_()
+                            except ValueError:
+                                pass
+            M.bucket('C04/recipe/queried')
+            for n_, o_ in res.items():
+                M.count('IMMUT.recipe_results_after_queries')
+                now_ = F.fingerprint(o_)
+                if now_ != after_bake[n_]:
+                    M.violate('C04', 'IMMUT', 'C04:bake_result_changed_by_tracking_queries',
+                              {'object': n_, 'diff': F.diff(after_bake[n_], now_)})
+                    break
         except Exception as e:   # noqa
             M.bucket('C04/recipe/' + type(e).__name__)
             M.note_nontrivial('C04', ('recipe', type(e).__name__, len(r.steps)))
